@@ -34,7 +34,6 @@ class MySQLValueWrapper(ValueWrapper):
         if isinstance(value, (dict, list)):
             value = json.dumps(value)
         if isinstance(value, str):
-            value = value.replace(quote_char, quote_char * 2)
             value = value.replace("\\", "\\\\")
             return format_quotes(value, quote_char)
         elif isinstance(value, time):
